@@ -45,12 +45,12 @@ PROPS = {
     assumptions=[A['A4'], A['A6'], A['A7']],
     explanation='==, is_zero, to_affine, to_jacobian, zero verified over the affine view for identity / z=1 / general representatives and all relations'),
  'C09': dict(
-    tasks=T('mirvc:specs_groups', 'mirvc:specs_lib', 'gsearch:all', 'csearch:debug', 'ground:all'),
+    tasks=T('mirvc:specs_groups', 'mirvc:specs_lib', 'kani:dec_quick', 'gsearch:all', 'csearch:debug', 'ground:all'),
     trusted_base=[A['A3'], A['A4'], A['A7'], A['A9']],
     assumptions=[A['A3'], A['A4'], A['A7']],
     explanation='AffineG::new: Ok iff y^2 = x^3 + b and (check_order => [r-1]P + P = O), for both values of check_order'),
  'C06': dict(
-    tasks=(lambda tier: ['verus:divrem', 'verus:invr', 'kani:arkff', 'kani:limbs_linear', 'mirvc:specs_lib', 'mirvc:specs_loops', 'lsearch:all', 'ground:all'] if tier == 'quick' else ['verus:divrem', 'verus:invr', 'kani:arkff', 'kani:limbs_linear', 'mirvc:specs_lib', 'mirvc:specs_loops', 'lsearch:all', 'kani:canon', 'ground:all']),
+    tasks=(lambda tier: ['verus:divrem', 'verus:invr', 'kani:arkff', 'kani:limbs_linear', 'kani:field_linear', 'mirvc:specs_lib', 'mirvc:specs_loops', 'lsearch:all', 'ground:all'] if tier == 'quick' else ['verus:divrem', 'verus:invr', 'kani:arkff', 'kani:limbs_linear', 'kani:field_linear', 'mirvc:specs_lib', 'mirvc:specs_loops', 'lsearch:all', 'kani:canon', 'ground:all']),
     trusted_base=[A['A1'], A['A6'], A['A7']],
     assumptions=[A['A1'], A['A6'], A['A7']],
     explanation='(under construction) limb-level contracts'),
@@ -75,18 +75,18 @@ PROPS = {
     assumptions=[A['A7'], A['A9']],
     explanation='(under construction) encoder contracts'),
  'C07': dict(
-    tasks=(lambda tier: ['verus:divrem', 'verus:invr', 'kani:arkff', 'kani:limbs_linear', 'mirvc:specs_lib', 'lsearch:all', 'ground:all'] if tier == 'quick' else ['verus:divrem', 'verus:invr', 'kani:arkff', 'kani:limbs_linear', 'mirvc:specs_lib', 'lsearch:all', 'kani:canon', 'ground:all']),
+    tasks=(lambda tier: ['verus:divrem', 'verus:invr', 'kani:arkff', 'kani:limbs_linear', 'kani:field_linear', 'mirvc:specs_lib', 'term:all', 'lsearch:all', 'rsearch:all', 'ground:all'] if tier == 'quick' else ['verus:divrem', 'verus:invr', 'kani:arkff', 'kani:limbs_linear', 'kani:field_linear', 'mirvc:specs_lib', 'term:all', 'lsearch:all', 'rsearch:all', 'kani:canon', 'ground:all']),
     trusted_base=[A['A6'], A['A7']],
     assumptions=[A['A6'], A['A7']],
     explanation='(under construction) canonicity'),
  'C14': dict(
-    tasks=T('verus:divrem', 'mirvc:specs_sqrt', 'mirvc:specs_loops', 'lsearch:all', 'mirvc:specs_lib', 'csearch:debug', 'ground:all'),
+    tasks=T('verus:divrem', 'kani:field_linear', 'mirvc:specs_sqrt', 'mirvc:specs_loops', 'lsearch:all', 'mirvc:specs_lib', 'csearch:debug', 'ground:all'),
     trusted_base=[A['A2'], A['A7']],
     assumptions=[A['A2'], A['A7']],
     explanation='Fq::sqrt in the exponent domain under Euler\'s three cases: sqrt(0) = 0, Some(s) with s*s = x on every path for non-zero squares (sound + complete), None for non-squares; pow by the loop-invariant obligation; Fq2::sqrt: every returned root squares to x (17 paths, incl. the zero-imaginary branch), sqrt(0) = 0; completeness of Fq2::sqrt is not decided by proof (search only); decoders rely on it through csearch'),
  'C18': dict(
-    tasks=(lambda tier: ['kani:limbs_linear', 'kani:bytes', 'kani:dec_quick', 'kani:enc', 'kani:dispatch', 'psearch:all'] if tier == 'quick' else
-           ['kani:limbs_linear', 'kani:bytes', 'kani:dec_quick', 'kani:enc', 'kani:dispatch', 'kani:canon', 'kani:dec_strict', 'psearch:all']),
+    tasks=(lambda tier: ['kani:limbs_linear', 'kani:field_linear', 'kani:bytes', 'kani:dec_quick', 'kani:enc', 'kani:dispatch', 'psearch:all'] if tier == 'quick' else
+           ['kani:limbs_linear', 'kani:field_linear', 'kani:bytes', 'kani:dec_quick', 'kani:enc', 'kani:dispatch', 'kani:canon', 'kani:dec_strict', 'psearch:all']),
     trusted_base=[A['A6'], A['A7'], A['A9'], A['A11']],
     assumptions=[A['A6'], A['A7'], A['A11']],
     explanation='every Kani harness proves all default checks (overflow, shift, index, unwrap, debug_assert, unreachable) of the real MIR it reaches, with debug assertions on; the dual-profile search executes every request on the dev and the release build and compares'),
